@@ -802,18 +802,26 @@ func derivedFromLen(v ssa.Value, depth int) bool {
 	case *ssa.UnOp:
 		if al, ok := x.X.(*ssa.Alloc); ok {
 			// by-reference captured counter: initial store decides
+			// every value stored in the cell must be a length (a smaller bound chosen on some path is not one)
+			n := 0
 			for _, r := range *al.Referrers() {
-				if st, ok := r.(*ssa.Store); ok && st.Addr == al && derivedFromLen(st.Val, depth-1) {
-					return true
+				if st, ok := r.(*ssa.Store); ok && st.Addr == al {
+					n++
+					if !derivedFromLen(st.Val, depth-1) {
+						return false
+					}
 				}
 			}
+			return n > 0
 		}
 	case *ssa.Phi:
+		// on every path: `min(len(x), limit)` written as a branch is not the number of senders
 		for _, e := range x.Edges {
-			if derivedFromLen(e, depth-1) {
-				return true
+			if !derivedFromLen(e, depth-1) {
+				return false
 			}
 		}
+		return len(x.Edges) > 0
 	case *ssa.Convert:
 		return derivedFromLen(x.X, depth-1)
 	}
